@@ -16,10 +16,13 @@ Logged(st) == {<<st[i][1], st[i][2], st[i][3]>> : i \in 1..Len(st)}
 
 EventStep(e) ==
   \/ /\ e.e = "new"
-     /\ coll' = Empty /\ last' = NoOffset /\ strict' = e.strict /\ resets' = 0 /\ snaps' = 0
+     /\ coll' = Empty /\ last' = NoOffset /\ strict' = e.strict /\ resets' = 0 /\ snaps' = 0 /\ errcb' = 0
   \/ /\ e.e = "apply"
      /\ Apply(e.msg, e.off, e.err)
-     /\ Logged(e.state) = Triples(coll') /\ e.last = last' /\ e.resets = resets' /\ e.snaps = snaps'
+     /\ Logged(e.state) = Triples(coll') /\ e.last = last' /\ e.resets = resets' /\ e.snaps = snaps' /\ e.errcb = errcb'
+  \/ /\ e.e = "applydirect"                               \* ApplyChangeMessage / ApplyControlMessage
+     /\ ApplyDirect(e.msg, e.err)
+     /\ Logged(e.state) = Triples(coll') /\ e.last = last' /\ e.resets = resets' /\ e.snaps = snaps' /\ e.errcb = errcb'
   \/ /\ e.e = "final"                                     \* two sessions give the same state as one
      /\ Logged(e.state) = Triples(coll) /\ e.last = last
      /\ UNCHANGED svars
